@@ -11,6 +11,7 @@ import (
 )
 
 type dictLookup struct {
+	name              string // by-name lookups (code and vendor are then the definition's, symbolic)
 	app, code, vendor *Term
 	ty                *Term // 8-bit: 0..18 TypeID, 255 undefined
 	found             *Term // for commands (bool)
@@ -298,9 +299,15 @@ func (it *Interp) abstractFindAVP(g *G, appid *Term, code Value, vendor *Term, w
 	if isNilValue(civ) {
 		it.unsupported("abstract dictionary: nil code")
 	}
+	if nm, isName := civ.val.(*Str); isName {
+		if !nm.IsConc() {
+			it.unsupported("abstract dictionary: lookup by symbolic name")
+		}
+		return it.abstractFindByName(g, appid, nm.conc)
+	}
 	ct, ok := civ.val.(*Term)
 	if !ok {
-		it.unsupported("abstract dictionary: lookup by name (%s)", civ.typ)
+		it.unsupported("abstract dictionary: lookup by %s", civ.typ)
 	}
 	isU32 := false
 	if b, ok := civ.typ.Underlying().(*types.Basic); ok && b.Kind() == types.Uint32 {
@@ -350,6 +357,13 @@ func (it *Interp) abstractFindAVP(g *G, appid *Term, code Value, vendor *Term, w
 		}
 		return Tuple{r, it.newError("Could not find AVP")}
 	}
+	o := it.mkAbstractAVP(appid, ct, vendor, ty, "Abstract-AVP")
+	return Tuple{&Ptr{obj: o}, (*Iface)(nil)}
+}
+
+func (it *Interp) mkAbstractAVP(appid, ct, vendor, ty *Term, name string) *Obj {
+	ts := it.ts
+	dp := it.P.pkgs[repoModule+"/diam/dict"]
 	avpT := dp.Type("AVP").Type()
 	st := avpT.Underlying().(*types.Struct)
 	o := it.newTypedObj(avpT, "abstract dict.AVP")
@@ -357,7 +371,7 @@ func (it *Interp) abstractFindAVP(g *G, appid *Term, code Value, vendor *Term, w
 		off := it.fieldOff(st, i)
 		switch st.Field(i).Name() {
 		case "Name":
-			o.cells[off] = concStr("Abstract-AVP")
+			o.cells[off] = concStr(name)
 		case "Code":
 			o.cells[off] = ct
 		case "VendorID":
@@ -382,7 +396,7 @@ func (it *Interp) abstractFindAVP(g *G, appid *Term, code Value, vendor *Term, w
 			o.cells[off] = &Ptr{obj: ao}
 		}
 	}
-	return Tuple{&Ptr{obj: o}, (*Iface)(nil)}
+	return o
 }
 
 func (it *Interp) abstractFindCommand(g *G, appid, code *Term) Value {
@@ -442,6 +456,57 @@ func (it *Interp) abstractFindCommand(g *G, appid, code *Term) Value {
 	return Tuple{&Ptr{obj: o}, (*Iface)(nil)}
 }
 
+// abstractFindByName models a lookup by AVP name: the dictionary may or may not define the name; if it
+// does, the definition has a symbolic code, vendor id and type, consistent with every other lookup.
+func (it *Interp) abstractFindByName(g *G, appid *Term, name string) Value {
+	ts := it.ts
+	for _, l := range it.dictLookups {
+		if l.name == name && ts.Eq(l.app, appid).IsTrue() {
+			return l.res
+		}
+	}
+	ty := it.freshInput("dict.type", "dicttype", 8)
+	cv := it.freshInput("dict.code", "dictcode", 32)
+	vv := it.freshInput("dict.vendor", "dictvendor", 32)
+	it.pc = append(it.pc, ts.Or(ts.And(ts.Ule(ts.Const(8, 1), ty), ts.Ule(ty, ts.Const(8, 18))), ts.Eq(ty, ts.Const(8, 255))))
+	it.pc = append(it.pc, ts.Not(ts.Eq(vv, ts.Const(32, undefinedVendor))))
+	if mask := it.cfg.Params["dict_types"]; mask != 0 {
+		allowed := ts.Eq(ty, ts.Const(8, 255))
+		for k := 1; k <= 18; k++ {
+			if mask&(1<<uint(k)) != 0 {
+				allowed = ts.Or(allowed, ts.Eq(ty, ts.Const(8, uint64(k))))
+			}
+		}
+		it.pc = append(it.pc, allowed)
+	}
+	for _, l := range it.dictLookups {
+		// functional consistency with lookups by code: the same (app, code, vendor) has one definition
+		same := ts.And(ts.Eq(l.app, appid), ts.And(ts.Eq(l.code, cv), ts.Eq(l.vendor, vv)))
+		if same.IsFalse() {
+			continue
+		}
+		def := ts.Not(ts.Eq(ty, ts.Const(8, 255)))
+		c := ts.Implies(ts.And(same, def), ts.Eq(l.ty, ty))
+		if !c.IsTrue() {
+			it.pc = append(it.pc, c)
+		}
+		if l.name != "" && l.name != name {
+			// two different names defined in one application do not share (code, vendor)... they may in
+			// real dictionaries; no constraint
+		}
+	}
+	lk := dictLookup{name: name, app: appid, code: cv, vendor: vv, ty: ty}
+	var res Value
+	if it.decide(ts.Eq(ty, ts.Const(8, 255)), "dictionary: name undefined") {
+		res = Tuple{(*Ptr)(nil), it.newError("Could not find AVP")}
+	} else {
+		res = Tuple{&Ptr{obj: it.mkAbstractAVP(appid, cv, vv, ty, name)}, (*Iface)(nil)}
+	}
+	lk.res = res
+	it.dictLookups = append(it.dictLookups, lk)
+	return res
+}
+
 // dictModel extracts the concrete dictionary table of a counterexample.
 func (it *Interp) dictModel(model map[string]uint64) []DictEntry {
 	var out []DictEntry
@@ -452,7 +517,7 @@ func (it *Interp) dictModel(model map[string]uint64) []DictEntry {
 		if ty == 255 {
 			ty = -1
 		}
-		out = append(out, DictEntry{App: uint32(ev(l.app)), Code: uint32(ev(l.code)), Vendor: uint32(ev(l.vendor)), Type: ty})
+		out = append(out, DictEntry{App: uint32(ev(l.app)), Code: uint32(ev(l.code)), Vendor: uint32(ev(l.vendor)), Type: ty, Name: l.name})
 	}
 	for _, l := range it.cmdLookups {
 		if ev(l.found) != 1 {
